@@ -31,17 +31,17 @@ def run(ctx):
     )
     run.trusted_base = ["CPython ast", "spec/idcontrib.json (hand transcription of STIX 2.1 sections 2.9 and 6)"]
     run.assumptions = ["uuid.uuid5 and the canonicaliser are deterministic functions of their arguments (C16 decides the latter's shape)"]
-    rule_table(ctx)
-    rule_constants(ctx)
-    rule_wiring(ctx)
-    rule_determinism(ctx)
+    ctx.do(rule_table)
+    ctx.do(rule_constants)
+    ctx.do(rule_wiring)
+    ctx.do(rule_determinism)
     # the id is the UUIDv5 of the RFC 8785 form of the contributing properties: every structural clause of the canonical
     # form (C16) is a necessary condition of "the same id as every other implementation"
     from . import C16
-    C16.rule_encoder_siblings(ctx, rule_id="C06.canonical-form")
-    C16.rule_key_order(ctx, rule_id="C06.canonical-form")
-    C16.rule_escapes(ctx, rule_id="C06.canonical-form")
-    C16.rule_number_constants(ctx, rule_id="C06.canonical-form")
+    ctx.do(C16.rule_encoder_siblings, rule_id="C06.canonical-form")
+    ctx.do(C16.rule_key_order, rule_id="C06.canonical-form")
+    ctx.do(C16.rule_escapes, rule_id="C06.canonical-form")
+    ctx.do(C16.rule_number_constants, rule_id="C06.canonical-form")
 
 
 def rule_table(ctx):
